@@ -536,6 +536,11 @@ func addSharedConstRule(w *World, r *Report, rule string) {
 				if x.Val == v {
 					if a, isAlloc := x.Addr.(*ssa.Alloc); isAlloc {
 						follow(g, loadsOf(a), seen)
+					} else if loads, ok := privateFieldLoads(w, x.Addr); ok {
+						// an unexported field of a fork struct: the pointer goes wherever the field's readers take it
+						for _, l := range loads {
+							follow(g, l, seen)
+						}
 					} else {
 						_, d, _ := addrRoot(x.Addr)
 						esc = "stored into " + strings.TrimSpace(d+" "+rootDesc(x.Addr))
@@ -881,6 +886,28 @@ func addFreshTracerRule(w *World, r *Report, rule string) {
 				}
 				found++
 				pos = st.Pos()
+				// through the accessor: a fork method of the EVM whose every return is the load of its receiver's tracer field
+				if c, isCall := st.Val.(*ssa.Call); isCall && len(fn.Params) > 0 && len(c.Call.Args) == 1 && c.Call.Args[0] == ssa.Value(fn.Params[0]) {
+					if g := c.Call.StaticCallee(); g != nil && isForkPkg(g.Pkg) && g.Blocks != nil && len(g.Params) == 1 {
+						getter := true
+						for _, gb := range g.Blocks {
+							if ret, isRet := gb.Instrs[len(gb.Instrs)-1].(*ssa.Return); isRet {
+								l, isL := ret.Results[0].(*ssa.UnOp)
+								if !isL || len(ret.Results) != 1 {
+									getter = false
+									continue
+								}
+								gfa, isGfa := l.X.(*ssa.FieldAddr)
+								if !isGfa || fieldID(gfa) != "P0.EVM.tracer" || gfa.X != ssa.Value(g.Params[0]) {
+									getter = false
+								}
+							}
+						}
+						if getter {
+							continue
+						}
+					}
+				}
 				ld, isLd := st.Val.(*ssa.UnOp)
 				if !isLd {
 					ok = false
@@ -1219,4 +1246,75 @@ func recvWriter(f *ssa.Function) bool {
 		}
 	}
 	return false
+}
+
+// privateFieldLoads: addr is the address of an unexported field of a struct type declared in a fork
+// package; returns every load of that field in the fork packages. ok is false when the field's address
+// is used for anything but loads and stores (it could then be read or written elsewhere), or the field
+// is exported (packages outside the analysed set can read it).
+func privateFieldLoads(w *World, addr ssa.Value) ([]ssa.Value, bool) {
+	fa, ok := addr.(*ssa.FieldAddr)
+	if !ok {
+		return nil, false
+	}
+	owner := func(f *ssa.FieldAddr) (*types.Named, *types.Var) {
+		t := f.X.Type()
+		if p, ok := t.Underlying().(*types.Pointer); ok {
+			t = p.Elem()
+		}
+		nt, ok := t.(*types.Named)
+		if !ok {
+			return nil, nil
+		}
+		st, ok := nt.Underlying().(*types.Struct)
+		if !ok || f.Field >= st.NumFields() {
+			return nil, nil
+		}
+		return nt, st.Field(f.Field)
+	}
+	nt, fld := owner(fa)
+	if nt == nil || fld.Exported() || nt.Obj().Pkg() == nil || !strings.HasPrefix(nt.Obj().Pkg().Path(), forkMod) {
+		return nil, false
+	}
+	var loads []ssa.Value
+	for _, fn := range w.forkFuncsAll() {
+		for _, b := range fn.Blocks {
+			for _, ins := range b.Instrs {
+				if fv, ok := ins.(*ssa.Field); ok {
+					// the field of a copied struct value
+					if n2, ok := fv.X.Type().(*types.Named); ok && n2.Obj() == nt.Obj() {
+						if st := n2.Underlying().(*types.Struct); fv.Field < st.NumFields() && st.Field(fv.Field) == fld {
+							loads = append(loads, fv)
+						}
+					}
+					continue
+				}
+				f2, ok := ins.(*ssa.FieldAddr)
+				if !ok {
+					continue
+				}
+				n2, fl2 := owner(f2)
+				if n2 == nil || n2.Obj() != nt.Obj() || fl2 != fld {
+					continue
+				}
+				for _, r := range *f2.Referrers() {
+					switch u := r.(type) {
+					case *ssa.Store:
+						if u.Addr != ssa.Value(f2) {
+							return nil, false
+						}
+					case *ssa.UnOp:
+						if u.Op != token.MUL {
+							return nil, false
+						}
+						loads = append(loads, u)
+					case *ssa.DebugRef:
+					default:
+						return nil, false
+					}
+				}
+			}
+		}
+	}
+	return loads, true
 }
